@@ -51,6 +51,14 @@ def mk_case(file, cls, kind, tags, inc=False, low=None, med=None):
     return {"file": file, "cls": cls, "kind": kind, "tags": tags, "inc": inc, "low": low, "med": med}
 
 
+def case_src(c):
+    """the .py text of a case; "functions" = plain module-level functions of the file (no class, no import: invisible to Class/CBO.v)"""
+    src = cg.file_src(c["file"], c["cls"])
+    for fn in c.get("functions") or []:
+        src += "\n\ndef %s(*args, **kwargs):\n    return None\n" % fn
+    return src
+
+
 def position_matrix():
     """every position x every import form, one instantiation per class"""
     out = []
@@ -601,6 +609,144 @@ def e2e_options(ck, cases, impl):
     return n
 
 # ------------------------------------------------------------------------------------------
+# multi-file runs: the CBO of a class depends only on its own file (Class/CBO.v is evaluated per file).  A project = 2-4 files
+# analysed in ONE `pyscn analyze --select cbo` run; some file imports names (from-import, import-as, module import, module
+# import-as) that another file uses WITHOUT importing them (there a plain function, a local class, or undefined).
+# ------------------------------------------------------------------------------------------
+MF_STATUS = {"from": ["function", "class", "undefined", "imported_too"], "fromas": ["function", "class", "undefined", "imported_too"],
+             "mod": ["undefined", "imported_too"], "modas": ["undefined", "imported_too"]}
+MF_NAMES = {True: ("a_%s.py", "m%d_%s.py", "z_%s.py"), False: ("z_%s.py", "m%d_%s.py", "a_%s.py")}
+
+
+def mf_use(ref, pos, how):
+    """members of a class that names ref once (instantiation at pos / method call on the name / both) next to a local collaborator"""
+    own = (("inst", ("", "Own")), "PAssignValue")
+    ms = []
+    if how in ("inst", "both"):
+        ms.append((("inst", ref), pos))
+    if how in ("call", "both") and not ref[0]:
+        ms.append((("call", ref[1], "run"), "PReturnValue"))
+    cls_level = [m for m in ms if cg.POS[m[1]][1] == "c"]
+    body = [m for m in ms if cg.POS[m[1]][1] != "c"]
+    return [("stmt", m) for m in cls_level] + [("method", dict(name="run", decos=[], params=[], ret=None, body=body + [own]))]
+
+
+def multifile_projects(rng, n_rand):
+    """[{"files": [(file name, case)], "tags"}] — the matrix import form x status of the name in the using file x analysis order
+    (importer's file name sorts before / after the user's) x 2..4 files, then random projects over a shared pool of names."""
+    projs = []
+    k = rng.randrange(1000)
+    for form in ("from", "fromas", "mod", "modas"):
+        for status in MF_STATUS[form]:
+            for importer_first in (True, False):
+                for how in ("inst", "call", "both") if form in ("from", "fromas") else ("inst",):
+                    k += 1
+                    nfiles = 2 + k % 3
+                    pos = EXPR_POS[(k * 7) % len(EXPR_POS)]
+                    imps, _, ref = form_ref(form, "Dep", "K")
+                    first, mid, last = MF_NAMES[importer_first]
+                    tags = {"position": pos, "form": form, "status": status, "importer_first": importer_first, "files": nfiles, "use": how}
+                    importer = mk_case(dict(imports=imps + [("from", "Shared")], classes=["Own"]),
+                                       dict(name="Importer", bases=[], members=mf_use(ref, "PBody", "inst")), "multifile", tags)
+                    uf = dict(imports=list(imps) if status == "imported_too" else [], classes=["Own"] + (["Dep"] if status == "class" else []))
+                    user = mk_case(uf, dict(name="K", bases=[], members=mf_use(ref, pos, how)), "multifile", tags)
+                    if status == "function":
+                        user["functions"] = ["Dep"]
+                    files = [(first % "importer", importer)]
+                    for j in range(nfiles - 2):
+                        mc = mk_case(dict(imports=[("from", "Other%d" % j), ("modas", "othermod%d" % j, "om%d" % j)], classes=["Own"]),
+                                     dict(name="Mid%d" % j, bases=[], members=mf_use(("", "Other%d" % j), "PReturnValue", "inst")), "multifile", tags)
+                        if j == 1:
+                            mc["functions"] = ["Dep", "Shared"]
+                        files.append((mid % (j, "mid"), mc))
+                    files.append((last % "user", user))
+                    projs.append({"files": files, "tags": tags})
+    # random projects: a pool of names, every file gives each name its own status
+    for pi in range(n_rand):
+        names = ["N%d" % i for i in range(rng.randint(2, 5))]
+        files = []
+        for fi in range(rng.randint(2, 4)):
+            imports, classes, functions, members = [], ["Own"], [], []
+            body = []
+            for n in names:
+                st = rng.choice(["from", "fromas", "mod", "function", "class", "undefined", "undefined", "unused"])
+                ref = ("", n)
+                if st == "from":
+                    imports.append(("from", n))
+                elif st == "fromas":
+                    imports.append(("fromas", "Orig" + n, n))
+                elif st == "mod":
+                    imports.append(("mod", n.lower()))
+                elif st == "function":
+                    functions.append(n)
+                elif st == "class":
+                    classes.append(n)
+                if st == "unused" and rng.random() < 0.7:
+                    continue
+                for _ in range(rng.randint(1, 2)):
+                    r = rng.random()
+                    if r < 0.6:
+                        body.append((("inst", ref), rng.choice([p for p in EXPR_POS if cg.POS[p][1] == "m"])))
+                    elif r < 0.75:
+                        body.append((("inst", (n.lower(), "Thing")), rng.choice([p for p in ASSIGN_LIKE if cg.POS[p][1] == "m"])))
+                    elif r < 0.9:
+                        body.append((("call", n, "run"), rng.choice([p for p in ASSIGN_LIKE if cg.POS[p][1] == "m"])))
+                    else:
+                        members.append(("attr", "f_" + n.lower(), ("ref", ref)))
+            rng.shuffle(body)
+            members.append(("method", dict(name="run", decos=[], params=[], ret=None, body=body + [(("inst", ("", "Own")), "PAssignValue")])))
+            c = mk_case(dict(imports=imports, classes=classes), dict(name="K%d" % fi, bases=[], members=members), "multifile", {"form": "random", "project": pi})
+            c["functions"] = functions
+            files.append(("%s%d_mod.py" % (rng.choice("abmz"), fi), c))
+        projs.append({"files": files, "tags": {"form": "random", "project": pi, "files": len(files)}})
+    return projs
+
+
+def check_multifile(ck, projs, index, results, model):
+    """Every class of every file of a project, as `pyscn analyze --json --select cbo <dir>` reports it in ONE run over the directory,
+    against the per-file model (and the classes it names in its own file), and against the run over its file alone."""
+    n = n_bad = 0
+    for pi, pr in enumerate(projs):
+        d = lib.fresh_dir("c13_mf")
+        srcs = {fname: case_src(c) for fname, c in pr["files"]}
+        got = cli_classes(ck, d, "[cbo]\nshow_zeros = true\n", srcs)
+        if got is None:
+            continue
+        for fname, c in pr["files"]:
+            idx = index[id(c)]
+            n += 1
+            cl = got.get((fname, c["cls"]["name"]))
+            replay = {"kind": "multifile", "tags": pr["tags"], "files": srcs, "file": fname, "class": c["cls"]["name"],
+                      "command": "pyscn analyze --json --select cbo .  (with .pyscn.toml: [cbo] show_zeros = true)"}
+            if cl is None:
+                n_bad += 1
+                ck.violation("class %s of %s is missing from the report of the run over %s" % (c["cls"]["name"], fname, sorted(srcs)), replay)
+                continue
+            cli = (cl["Metrics"]["CouplingCount"], sorted(cl["Metrics"]["DependentClasses"] or []), cl["RiskLevel"])
+            replay["cli"] = {"cbo": cli[0], "deps": cli[1], "risk": cli[2]}
+            want = None
+            if model is not None:
+                mcount, mdeps, mrisk, sdeps = model[idx]
+                want = (mcount, sorted(dep_name(x) for x in mdeps), {v: k for k, v in RISK.items()}[mrisk])
+                replay["model_of_the_file_alone"] = {"cbo": want[0], "deps": want[1], "risk": want[2]}
+            alone = results[idx]
+            if alone is not None:
+                replay["run_over_the_file_alone"] = alone
+            if want is not None and cli != want:
+                n_bad += 1
+                if n_bad <= 4:
+                    ck.violation("run over %s: class %s of %s has CBO %d %s (%s); its own file gives CBO %d %s (%s) [Class/CBO.v on the file alone: the CBO of a class "
+                                 "depends on its own file only; extra %s, missing %s]"
+                                 % (sorted(srcs), c["cls"]["name"], fname, cli[0], cli[1], cli[2], want[0], want[1], want[2],
+                                    sorted(set(cli[1]) - set(want[1])), sorted(set(want[1]) - set(cli[1]))), replay)
+            elif alone is not None and cli != (alone["cbo"], alone["deps"], alone["risk"]):
+                n_bad += 1
+                if n_bad <= 4:
+                    ck.violation("run over %s: class %s of %s has CBO %d %s (%s); the run over %s alone gives CBO %d %s (%s)"
+                                 % (sorted(srcs), c["cls"]["name"], fname, cli[0], cli[1], cli[2], fname, alone["cbo"], alone["deps"], alone["risk"]), replay)
+    return n, n_bad
+
+
 def coq_opts(case, dlow, dmed):
     lo = dlow if case["low"] is None else case["low"]
     me = dmed if case["med"] is None else case["med"]
@@ -684,7 +830,7 @@ def e2e(ck, cases, impl):
     picked = picked[::step][:48]
     for i, c, r in picked:
         with open(os.path.join(d, "mod_%d.py" % i), "w") as f:
-            f.write(cg.file_src(c["file"], c["cls"]))
+            f.write(case_src(c))
     rc, data, err = lib.analyze_json(d, ["--select", "cbo,lcom"])
     if data is None or "cbo" not in data:
         ck.broken_ties.append("e2e: pyscn analyze produced no cbo report (rc=%s): %s" % (rc, err[-300:]))
@@ -699,12 +845,12 @@ def e2e(ck, cases, impl):
             cl = got.get(("mod_%d.py" % i, ic["name"]))
             if cl is None:
                 ck.violation("class %s of mod_%d.py missing from cbo.Classes[] although [cbo] show_zeros = true" % (ic["name"], i),
-                             {"kind": "e2e", "source": cg.file_src(c["file"], c["cls"]), "driver": ic})
+                             {"kind": "e2e", "source": case_src(c), "driver": ic})
                 continue
             cli = (cl["Metrics"]["CouplingCount"], sorted(cl["Metrics"]["DependentClasses"] or []), cl["RiskLevel"])
             if cli != (ic["cbo"], ic["deps"], ic["risk"]):
                 ck.violation("pyscn analyze reports %s for class %s, the analyser called directly reports %s" % (cli, ic["name"], (ic["cbo"], ic["deps"], ic["risk"])),
-                             {"kind": "e2e", "source": cg.file_src(c["file"], c["cls"]), "cli": cl, "driver": ic})
+                             {"kind": "e2e", "source": case_src(c), "cli": cl, "driver": ic})
     # configured thresholds through .pyscn.toml
     d2 = lib.fresh_dir("c13_e2e_thr")
     with open(os.path.join(d2, ".pyscn.toml"), "w") as f:
@@ -766,9 +912,16 @@ def main(tier):
             cases.append(mk_case(f2, c2, "variant:" + label, {"position": "mixed", "form": "mixed"}))
         meta.append((bi, vs))
 
+    projs = multifile_projects(rng, 60 if thorough else 12)
+    mf_index = {}
+    for pr in projs:
+        for _, c in pr["files"]:
+            mf_index[id(c)] = len(cases)
+            cases.append(c)
+
     reqs = []
     for c in cases:
-        r = {"op": "cbo", "src": cg.file_src(c["file"], c["cls"]), "include_builtins": c["inc"]}
+        r = {"op": "cbo", "src": case_src(c), "include_builtins": c["inc"]}
         if c["low"] is not None:
             r["low"], r["medium"] = c["low"], c["med"]
         reqs.append(r)
@@ -853,6 +1006,13 @@ def main(tier):
                 ck.violation("law '%s' broken: CBO %d %s became %d %s, expected %d %s" % (label, b["cbo"], b["deps"], v["cbo"], v["deps"], wantn, want),
                              {"kind": "metamorphic:" + label, "source": reqs[bi]["src"], "variant_source": reqs[vi]["src"], "impl": b, "impl_variant": v})
 
+    n_mf = 0
+    try:
+        n_mf, bad_mf = check_multifile(ck, projs, mf_index, results, model)
+        n_viol += bad_mf
+    except Exception as e:
+        ck.broken_ties.append("multi-file runs failed: %s" % str(e)[-600:])
+
     n_e2e = 0
     try:
         n_e2e = e2e(ck, cases, impl)
@@ -881,16 +1041,21 @@ def main(tier):
 
     ck.samples = [{"source": reqs[i]["src"], "impl": results[i], "tags": cases[i]["tags"]} for i in (3, len(position_matrix()) + 5, len(cases) - 3) if results[i]]
     ck.cov.update({
-        "evaluations": len(cases) + n_table + n_e2e + n_gen,
+        "evaluations": len(cases) + n_table + n_e2e + n_gen + n_mf,
         "distinct_nontrivial": len(distinct),
         "rule": "position x import-form matrix (one instantiation per class), nested matrix (an instantiation hidden in the argument list of another call: "
                 "host kind x argument slot x statement context, full cross for assignment-like contexts, depth up to 4, one-more-argument pairs), base/annotation form x shape x place matrix, "
                 "threshold lattice (0..10 dependencies x 10 threshold pairs), random classes with 5 metamorphic variants each "
                 "(repeat, reorder, rename self, add unrelated, add one coupled class), built-ins included (every position x built-in type; built-in function / local class in assignment-like positions), "
                 "subscripted forms (class K(Base[T]) x import form x arity, x: mod.Container[T] x place x import form), parser position table (find-path), "
+                "multi-file runs (projects of 2-4 files analysed in ONE `pyscn analyze --select cbo` run: a file imports a name by from-import / import-as / module import / module import-as, "
+                "another file uses it WITHOUT importing it - there a plain function, a local class, undefined, or imported too - by instantiation at a rotating position / method call on the name / both; "
+                "importer's file name sorting before and after the user's; plus random projects over a shared pool of names with a per-file status; every class against Class/CBO.v evaluated on its own file "
+                "and against the run over the file alone), "
                 "CLI runs (default, [cbo] thresholds, include_builtins = true, include_imports = false, [analysis] exclude_patterns matching class names); "
                 "distinct = distinct source texts",
-        "input_distribution": dict(dist, position_table_probes=n_table, metamorphic_relations=n_meta, e2e_classes=n_e2e, subscript_forms=n_gen),
+        "input_distribution": dict(dist, position_table_probes=n_table, metamorphic_relations=n_meta, e2e_classes=n_e2e, subscript_forms=n_gen,
+                                   multifile_projects=len(projs), multifile_classes_checked=n_mf),
         "known_finding_cases": n_known,
         "model_mismatches": n_tie,
         "disagreements_checked": n_viol + n_tie + n_known,
